@@ -277,6 +277,18 @@ def gen_cases(ctx):
             inp = gen_degree(rng)
         cases.append({"kind": "trigger", "mode": "activate", "dtype": "array" if batch else "scalar", "impl": rng.choice([None] + TNORMS), "oracle": True,
                       "family": None, "vars": vs, "rules": rules, "input": inp})
+    # (d') every activation method, 1-3 rules with different weights, conjunction / disjunction / implication distinct objects
+    for _ in range(ctx.n(320, 4500)):
+        vs = gen_vars(rng, False)
+        rules = []
+        for _ in range(rng.randint(1, 3)):
+            cs = gen_structure(rng, vs, 0.5)
+            rules.append({"enabled": rng.random() < 0.9, "cons": text_of(vs, cs), "weight": rng.choice([None, 0.25, 0.5, 0.75, 0.5]), "degree": None, "structure": cs})
+        impl = rng.choice([None] + TNORMS + TNORMS)
+        conj = rng.choice([None, impl] + TNORMS)   # sometimes the same class as the implication, never the same object
+        cases.append({"kind": "trigger", "mode": "activate", "dtype": "scalar", "impl": impl, "conjunction": conj, "disjunction": rng.choice([None, "Maximum", "AlgebraicSum"]),
+                      "activation": gen_activation(rng), "oracle": True, "family": None, "vars": vs, "rules": rules,
+                      "input": rng.choice([rng.random(), rng.random(), 0.5, 1.0, 0.25, gen_degree(rng)])})
     # (f) the life of a rule object before the trigger: loaded twice, text changed and loaded again, unloaded and loaded,
     #     Rule.create then load, Consequent.load alone — one activated term per enabled conclusion of the LAST loaded text
     for _ in range(ctx.n(260, 3600)):
@@ -319,6 +331,8 @@ def gen_cases(ctx):
                 "oracle": oracle_ok, "family": None, "vars": vs, "rules": rules}
         if mode == "activate":
             case["input"] = gen_degree(rng)
+            case["activation"] = gen_activation(rng)
+            case["conjunction"] = rng.choice([None, case["impl"]] + TNORMS)
             if not oracle_ok:
                 case["oracle"] = False
         cases.append(case)
@@ -453,6 +467,38 @@ def run_script(fl, engine, r):
     return rule, ops
 
 
+def impl_label(x, block_implication):
+    """class name of the implication carried by an activated term; marked when it is not the block's own object"""
+    if x is None:
+        return ""
+    return type(x).__name__ + ("" if x is block_implication else "!not-the-block's-implication")
+
+
+def make_activation(fl, a):
+    if not a or a[0] == "General":
+        return fl.General()
+    if a[0] in ("First", "Last"):
+        return getattr(fl, a[0])(rules=a[1], threshold=a[2])
+    if a[0] in ("Highest", "Lowest"):
+        return getattr(fl, a[0])(rules=a[1])
+    if a[0] == "Proportional":
+        return fl.Proportional()
+    if a[0] == "Threshold":
+        return fl.Threshold(comparator=a[1], threshold=a[2])
+    raise KeyError(a[0])
+
+
+def gen_activation(rng, general_only=False):
+    k = "General" if general_only else rng.choice(["General", "First", "Last", "Highest", "Lowest", "Proportional", "Threshold", "Highest", "Lowest", "Proportional"])
+    if k in ("First", "Last"):
+        return [k, rng.choice([1, 1, 2, 3]), rng.choice([0.0, 0.0, 0.1, 0.25])]
+    if k in ("Highest", "Lowest"):
+        return [k, rng.choice([1, 1, 2, 3])]
+    if k == "Threshold":
+        return [k] + list(rng.choice([(">", 0.0), (">", 0.0), (">=", 0.0), (">=", 0.25), ("<=", 1.0), ("<", 0.5), ("!=", 0.5), ("==", 0.5)]))
+    return [k]
+
+
 def run_trigger(fl, obs, spec):
     """returns the observation of one case: degrees used, fuzzy outputs, triggered flags (or the exception)"""
     engine, a, outs = build_engine(fl, spec)
@@ -463,7 +509,11 @@ def run_trigger(fl, obs, spec):
         rule, ops = run_script(fl, engine, r)
         rules.append(rule)
         all_ops.append(ops)
-    rb = fl.RuleBlock("rb", implication=impl, activation=fl.General(), rules=rules)
+    # conjunction, disjunction and implication are always DISTINCT objects (sometimes of the same class): an activated
+    # term must carry the block's implication object itself
+    conj = getattr(fl, spec["conjunction"])() if spec.get("conjunction") else None
+    disj = getattr(fl, spec["disjunction"])() if spec.get("disjunction") else None
+    rb = fl.RuleBlock("rb", conjunction=conj, disjunction=disj, implication=impl, activation=make_activation(fl, spec.get("activation")), rules=rules)
     engine.rule_blocks = [rb]
     for v, ov in zip(spec["vars"], outs):
         for ti, d in v["old"]:
@@ -475,13 +525,31 @@ def run_trigger(fl, obs, spec):
     vlib.RECORDER.reset()
     err = None
     with patched_hedges(fl, obs), np.errstate(all="ignore"):
+        trigger_error = []
+        calls = []  # (rule position, degree of the rule when Rule.trigger is called, implication argument is the block's)
         if spec["mode"] == "activate":
             a.value = fl.array(spec["input"]) if batch else spec["input"]
+
+            def logged(i, rule):
+                def trigger(implication):
+                    calls.append((i, np.array(rule.activation_degree, dtype=float, copy=True), implication is impl))
+                    try:
+                        return fl.Rule.trigger(rule, implication)
+                    except Exception as ex:  # noqa: BLE001
+                        trigger_error.append((len(calls) - 1, type(ex).__name__))
+                        raise
+
+                return trigger
+
+            for i, rule in enumerate(rules):
+                rule.trigger = logged(i, rule)  # instance attribute: the activation method calls rule.trigger(...)
             try:
                 rb.activate()
             except Exception as ex:  # noqa: BLE001
-                err = (-1, type(ex).__name__)
-            considered = [i for i, r in enumerate(rules) if r.is_loaded()]
+                err = trigger_error[0] if trigger_error else (-1, type(ex).__name__)  # -1: raised by the activation method itself
+            for rule in rules:
+                del rule.trigger
+            considered = [i for i, _, _ in calls]  # the model replays the trigger calls in the order they were made
         else:
             considered = list(range(len(rules)))
             for k, (r, rule) in enumerate(zip(spec["rules"], rules)):
@@ -497,8 +565,13 @@ def run_trigger(fl, obs, spec):
     out["error"] = err
     nrows = 1
     degs = [np.atleast_1d(np.asarray(rule.activation_degree, dtype=float)) for rule in rules]
+    out["foreign_implication_calls"] = 0
+    if spec["mode"] == "activate":
+        for i, d, same in calls:
+            degs[i] = np.atleast_1d(d)
+            out["foreign_implication_calls"] += not same
     trig = [np.atleast_1d(np.asarray(rule.triggered)) for rule in rules]
-    fz = [[(t.term.name, np.atleast_1d(np.asarray(t.degree, dtype=float)), type(t.implication).__name__ if t.implication is not None else "") for t in ov.fuzzy.terms] for ov in outs]
+    fz = [[(t.term.name, np.atleast_1d(np.asarray(t.degree, dtype=float)), impl_label(t.implication, impl)) for t in ov.fuzzy.terms] for ov in outs]
     for arr in degs + trig + [d for f in fz for _, d, _ in f]:
         nrows = max(nrows, arr.size)
     out["rows"] = nrows
@@ -585,6 +658,21 @@ def oracle_case(fl, hedge_objs, spec, obs, verdict, replay):
                 d = float(hedge_objs[h].hedge(d))
         return d
 
+    if spec["mode"] == "activate":
+        if obs["foreign_implication_calls"]:
+            verdict.add_violation("activate:implication", f"{(spec.get('activation') or ['General'])[0]} called Rule.trigger {obs['foreign_implication_calls']} times with an operator that is not the block's implication "
+                                  f"(block: conjunction={spec.get('conjunction')}, implication={spec['impl']})", replay); nv += 1
+        # the degree the method passes: weight * membership, normalised by the sum of the positive degrees under Proportional
+        method = (spec.get("activation") or ["General"])[0]
+        for j in range(obs["rows"]):
+            mu = spec["input"][j] if isinstance(spec["input"], list) else spec["input"]
+            raw = [(1.0 if r["weight"] is None else r["weight"]) * mu for r in spec["rules"]]
+            total = sum(x for x in raw if x > 0.0)
+            for k in obs["considered"]:
+                with np.errstate(all="ignore"):
+                    want_d = float(np.float64(raw[k]) / np.float64(total)) if method == "Proportional" else raw[k]
+                if not close(obs["degrees"][j][k], want_d):
+                    verdict.add_violation("activate:degree", f"{method}: rule '{spec['rules'][k]['cons']}' weight {spec['rules'][k]['weight']} input {mu} was triggered with degree {obs['degrees'][j][k]!r}, expected {want_d!r}", replay); nv += 1
     for j in range(obs["rows"]):
         want = [[(v["terms"][ti], d, "") for ti, d in v["old"]] for v in vs]
         leak = [list(w) for w in want]  # what the carried-over degree would give (diagnosis of F1 only)
@@ -665,7 +753,7 @@ def run(ctx, build, verdict, ev):
     load_lits, trig_lits, index = [], [], []
     families: dict[int, list] = {}
     dist = {"load_ok": 0, "load_rejected": 0, "trigger_ok": 0, "trigger_raises": 0, "rows_scalar": 0, "rows_batch": 0, "activate": 0, "hedged_conclusions": 0,
-            "multi_conclusion": 0, "disabled_rule": 0, "disabled_variable": 0, "special_degree": 0, "reload_scripts": 0, "oracle_checked": 0, "permutation_families": 0, "oracle_entries": 0}
+            "multi_conclusion": 0, "disabled_rule": 0, "disabled_variable": 0, "special_degree": 0, "reload_scripts": 0, "methods": {}, "activate_raised_outside_trigger": 0, "oracle_checked": 0, "permutation_families": 0, "oracle_entries": 0}
     nviol = 0
     nontrivial = set()
     samples = []
@@ -679,12 +767,21 @@ def run(ctx, build, verdict, ev):
             continue
         o = run_trigger(fl, obs_mod, spec)
         replay = {"spec": jsonable(spec)}
+        if o["error"] and o["error"][0] < 0:  # the activation method raised outside Rule.trigger: nothing for the model to replay
+            dist["activate_raised_outside_trigger"] += 1
+            if spec["oracle"]:
+                verdict.add_violation("activate:raises", f"{spec.get('activation')} raised {o['error'][1]} on rules {[r['cons'] for r in spec['rules']]} input {spec.get('input')}", replay)
+                nviol += 1
+            continue
         lits = trigger_lits(spec, o)
         trig_lits += lits
         trig_index += [(spec, o, j) for j in range(len(lits))]
         dist["trigger_raises" if o["error"] else "trigger_ok"] += 1
         dist["rows_batch" if spec["dtype"] == "array" else "rows_scalar"] += o["rows"]
         dist["activate"] += spec["mode"] == "activate"
+        if spec["mode"] == "activate":
+            m = (spec.get("activation") or ["General"])[0]
+            dist["methods"][m] = dist["methods"].get(m, 0) + 1
         dist["oracle_entries"] += len(o["table"])
         for r in spec["rules"]:
             dist["disabled_rule"] += not r["enabled"]
@@ -740,7 +837,9 @@ def run(ctx, build, verdict, ev):
     c["rule"] = ("engines with 1-3 output variables (1-3 terms; some with duplicate names, no terms, names equal to keywords/hedges), consequents with 1-3 conclusions "
                  "(variables may repeat), 0-2 of the six hedges each, every order of the conclusions (permutation families), optional `with w`, 1-2 rules per block, "
                  "enabled/disabled rules and variables, old activations, mutated/random consequent texts; degrees random, k/8, NaN, +-inf, +-0, values just outside [0,1]; "
-                 "set directly (float, 0-d array, 1-d batch) then Rule.trigger, or through RuleBlock.activate() with General; one Coq evaluation per batch row. "
+                 "set directly (float, 0-d array, 1-d batch) then Rule.trigger, or through RuleBlock.activate() with every activation method (General, First, Last, Highest, Lowest, Proportional, Threshold; conjunction, disjunction and implication distinct objects; "
+                 "the model replays the logged Rule.trigger calls with the block's implication, the oracle checks the operator identity and the degree passed, normalised under Proportional); "
+                 "rule objects loaded twice / re-loaded after a text change / unloaded and loaded / Rule.create then load; one Coq evaluation per batch row. "
                  "non-trivial = distinct (rule texts, term, stored degree) with the degree strictly inside (0,1)")
     c["distribution"] = dist
     c["correspondence_mismatches"] = len(mism)
@@ -754,6 +853,7 @@ def run(ctx, build, verdict, ev):
     ev["assumptions"] += [
         "libm pow(x, 2) results of the hedge `extremely` in scalar mode are taken from the implementation (oracle table recorded by an observer clone of hedge.py patched in during the run)",
         "the direct oracle applies the real hedge objects (property C05) to the rule's degree; positions of variables/terms are object identities",
+        "in activate() mode WHICH rules a method triggers is taken from the logged Rule.trigger calls (selection is property C08); C07 checks what each call contributes",
         "on an exception inside Consequent.modify the model reports only the exception class (activations appended before the raise are not compared)",
     ]
 
